@@ -168,6 +168,10 @@ fn check_one<CS: BbsCiphersuite>(rep: &Report, ck: &str, c: &Case) -> CheckResul
     let r_cnt = idx.len();
     let u = l - r_cnt;
     let mut st = (c.seed as u64) << 8 | 1;
+    if c.seed % 2 == 1 {
+        crate::history::warmup(c.seed as u64, 1 + (c.seed % 5) as usize);
+        rep.class("after-warm-up-history");
+    }
 
     let sig = Signature::<BBSplus<CS>>::sign(Some(&msgs), sk, pk, hdr).map_err(|e| Fail { check: ck.into(), site: "sign".into(), msg: format!("{:?}", e), case: cj() })?;
     let proof = match PoKSignature::<BBSplus<CS>>::proof_gen(pk, &sig.to_bytes(), hdr, phd, Some(&msgs), Some(&idx)) {
